@@ -113,7 +113,9 @@ fn fmt_comma(k: &str, v: &str) -> String {
 /// A formatter result whose second or later line starts with '#' cannot be
 /// written as a deb822 value (it would be a comment): outside the domain.
 fn unrepresentable(log: &[(String, String, String)]) -> bool {
-    log.iter().any(|(_, _, o)| o.split('\n').skip(1).any(|l| l.trim_start_matches([' ', '\t']).starts_with('#')))
+    // (an indented line starting with '#' is an ordinary continuation line; nothing is unrepresentable on that account)
+    let _ = log;
+    false
 }
 
 /// a value's non-blank lines, trimmed
